@@ -164,6 +164,36 @@ theorem C10_7z_layout (ids : Ids) (c : Codec) (gs : List Group) (tail : List Ent
 
 /-! ### the three coders of a reference packer satisfy `GroupOk` -/
 
+/-- the dictionary size an LZMA2 property byte stands for: xz file format 5.3.1 / 7-Zip `Lzma2Dec.c`
+    (`LZMA2_DIC_SIZE_FROM_PROP(p) = (2 | (p & 1)) << (p / 2 + 11)`, 40 = 4 GiB - 1, larger bytes are invalid):
+    4K, 6K, 8K, 12K, 16K, 24K, ... -/
+def lzma2SpecDict (p : Nat) : Nat := if p = 40 then 0xFFFFFFFF else (2 ||| (p &&& 1)) <<< (p / 2 + 11)
+
+/-- **the reader sets the LZMA2 decoder up with the dictionary the property byte stands for**, every valid byte below 40
+    (both the 2^n and the 3·2^(n-1) sizes, and byte 0 = 4 KiB) -/
+theorem lzma2Dict_spec : ∀ p, p < 40 → lzma2Dict p = some (lzma2SpecDict p) := by decide
+
+/-- SOURCE TIE, exhaustive over the input domain: for every property byte 0..255 the filter chain the source function
+    `_decompress_lzma2` hands to `lzma.LZMADecompressor` (recorded by the generator from the function itself, current
+    source) is the model's `lzma2Dict` -/
+theorem gen_lzma2_dict_is_model :
+    S2T.Gen.SevenZip.lzma2DictTable = (List.range 256).map lzma2Dict := by decide +kernel
+
+/-- hence: the SOURCE sets the decoder up with exactly the format's dictionary for every valid property byte below 40 -/
+theorem gen_lzma2_dict_is_spec : ∀ p, p < 40 → S2T.Gen.SevenZip.lzma2DictTable[p]? = some (some (lzma2SpecDict p)) := by
+  rw [gen_lzma2_dict_is_model]; decide
+
+/-- byte 40 (4 GiB - 1) and the invalid bytes get `preset=6` (8 MiB): NOT the format's dictionary for byte 40; a folder
+    written with it is outside `Method.wf` (no packer the statement quantifies over writes a 4 GiB dictionary for files
+    `read_archive` accepts, `MAX_7Z_FILE_SIZE`) -/
+theorem lzma2Dict_40_is_preset : lzma2Dict 40 = none ∧ 2 ^ 23 < lzma2SpecDict 40 := by decide
+
+/-- the variant `1 <<< (p / 2 + 12)` (mantissa bit of the byte dropped) asks for LESS than the format's dictionary at
+    every odd byte — 2/3 of it — so `CodecOk` says nothing about it, and a match beyond 2/3 of the window is lost
+    (witness replayed on the real code: `7z.lzma2-dictionary-3x2n`) -/
+theorem lzma2Dict_without_mantissa_counterexample :
+    ∀ p, p < 40 → p % 2 = 1 → 1 <<< (p / 2 + 12) < lzma2SpecDict p ∧ 3 * (1 <<< (p / 2 + 12)) = 2 * lzma2SpecDict p := by decide
+
 /-- little-endian 8-byte size as `struct.pack("<Q", n)` -/
 def le64 (u : Nat) : Bytes := (List.range 8).map fun i => (u >>> (8 * i)) % 256
 
@@ -178,7 +208,10 @@ structure Enc where
 structure CodecOk (c : Codec) (e : Enc) : Prop where
   lzma : ∀ props x mo, props.length = 5 →
     c.lzmaAlone (props ++ le64 x.length ++ e.lzma props x) mo = some (capTo mo x)
-  lzma2 : ∀ p x mo, c.lzma2Raw (lzma2Dict p) (e.lzma2 p x) mo = some (capTo mo x)
+  /-- the encoder works with the dictionary its property byte STANDS FOR (`lzma2SpecDict`, the format's table, not the
+      reader's computation); any decoder whose dictionary is at least that large gives the data back.  Nothing is
+      assumed about a decoder set up with a smaller dictionary — it fails as soon as a match reaches further back. -/
+  lzma2 : ∀ p x mo d, p < 40 → lzma2SpecDict p ≤ d → c.lzma2Raw (some d) (e.lzma2 p x) mo = some (capTo mo x)
   lzma_ne : ∀ props x, e.lzma props x ≠ []
   lzma2_ne : ∀ p x, e.lzma2 p x ≠ []
 
@@ -195,7 +228,8 @@ def packGroup (e : Enc) (m : Method) (es : List Entry) : Group :=
 
 def Method.wf : Method → Prop
   | .lzma p => p.length = 5
-  | _ => True
+  | .lzma2 p => p < 40
+  | .copy => True
 
 private theorem streamData_ne (es : List Entry) (h : streamCount es ≥ 1) : streamData es ≠ [] := by
   unfold streamCount at h
@@ -227,7 +261,9 @@ theorem packGroup_ok (c : Codec) (e : Enc) (hc : CodecOk c e) (m : Method) (hm :
   | lzma2 p =>
     refine ⟨hs, hc.lzma2_ne _ _, ?_⟩
     intro mo
-    simp [packGroup, applyDecoder, specIds, decompressLzma2, hc.lzma2 p (streamData es) mo]
+    have hp : p < 40 := hm
+    simp [packGroup, applyDecoder, specIds, decompressLzma2, lzma2Dict_spec p hp,
+      hc.lzma2 p (streamData es) mo (lzma2SpecDict p) hp (Nat.le_refl _)]
 
 /-- **7z, all layouts, reference packer.**  For every list of folders `layout` (each: a coder COPY / LZMA /
     LZMA2 and the entries listed while it is current, at least one of them a non-empty file), every trailing
@@ -286,7 +322,7 @@ theorem toy_ok : CodecOk toyCodec toyEnc := by
     simp only [toyCodec, toyEnc]
     rw [show p ++ le64 x.length ++ 0 :: x = (p ++ le64 x.length ++ [0]) ++ x by simp,
       List.drop_left' (by simp [le64, hp])]
-  · intro p x mo; simp [toyCodec, toyEnc]
+  · intro p x mo d _ _; simp [toyCodec, toyEnc]
   · intro p x; simp [toyEnc]
   · intro p x; simp [toyEnc]
 
